@@ -1,4 +1,4 @@
-CONSTANTS NSteps = 5 AcqW <- AcqT TryW <- TryT RelW <- RelT Timeouts <- TimeoutsMC MaxAcq = 3 MaxTry = 1 MaxRel = 2
+CONSTANTS NSteps = 5 MinSteps = 5 AcqW <- AcqT TryW <- TryT RelW <- RelT Timeouts <- TimeoutsMC MaxAcq = 3 MaxTry = 1 MaxRel = 2
 SPECIFICATION Spec
 INVARIANT EmitScen
 CHECK_DEADLOCK FALSE
